@@ -3,6 +3,7 @@ NC = 2
 NR = 2
 Limit = 1
 Mutant = 2
+BigC = 1
 INIT Init
 NEXT Next
 INVARIANT I_GracefulWaits
